@@ -90,6 +90,7 @@ def kinds(tier):
         ["multicast"],
         ["replay", 1, False],
         ["replay", 2, True],
+        ["replay", 0, False],
         ["publish_value"],
         ["share"],
         ["ref_count", "publish"],
